@@ -101,12 +101,15 @@ type codecScenario struct {
 	Explicit bool           `json:"explicit,omitempty"` // pass options even when they have the default value
 	Exp      []int          `json:"exp,omitempty"`      // expected packet (connect, subscribe, unsubscribe, ping, disconnect)
 
-	M    *codecMsg `json:"m,omitempty"`
-	Max  int       `json:"max,omitempty"`  // BaseClient.MaxPayloadLen
-	Head []int     `json:"head,omitempty"` // expected PUBLISH bytes in front of the payload (empty: nothing expected)
-	Rel  []int     `json:"rel,omitempty"`  // expected PUBREL of a QoS 2 sender
-	Ack1 []int     `json:"ack1,omitempty"` // inbound: expected PUBACK / PUBREC
-	Ack2 []int     `json:"ack2,omitempty"` // inbound: expected PUBCOMP
+	M *codecMsg `json:"m,omitempty"`
+	// StaleDup: the application's Message struct still has Dup=true (a struct reused after a retransmission, or a
+	// re-delivery it received and forwards); what it asks for is a first transmission all the same
+	StaleDup bool  `json:"staleDup,omitempty"`
+	Max      int   `json:"max,omitempty"`  // BaseClient.MaxPayloadLen
+	Head     []int `json:"head,omitempty"` // expected PUBLISH bytes in front of the payload (empty: nothing expected)
+	Rel      []int `json:"rel,omitempty"`  // expected PUBREL of a QoS 2 sender
+	Ack1     []int `json:"ack1,omitempty"` // inbound: expected PUBACK / PUBREC
+	Ack2     []int `json:"ack2,omitempty"` // inbound: expected PUBCOMP
 
 	PID  int         `json:"pid,omitempty"` // packet identifier of SUBSCRIBE / UNSUBSCRIBE
 	Subs []codecSub  `json:"subs,omitempty"`
@@ -400,6 +403,7 @@ func codecPublish(sc *codecScenario, res *codecResult) {
 	var t *codecTransport
 	var err error
 	if !m.Dup {
+		msg.Dup = sc.StaleDup
 		t = newCodecTransport(codecPubScript(m))
 		cli, cerr := codecConnected(t, sc.Max)
 		if cerr != nil {
